@@ -93,6 +93,6 @@ def outloop : Handler := fun args impl =>
   | _ => unmodelled
 
 def handlersC11 : List (String × Handler) := [("out", out), ("outfault", outfault), ("outreal", outreal), ("outloop", outloop)]
-def handlersC14 : List (String × Handler) := [("xids", xids), ("conc", conc), ("conclookup", conc), ("concdhcp", conc), ("xtalk", conc), ("concparse", conc), ("concenc", conc)]
+def handlersC14 : List (String × Handler) := [("xids", xids), ("conc", conc), ("conclookup", conc), ("concdhcp", conc), ("xtalk", conc), ("concparse", conc), ("concenc", conc), ("indep", conc)]
 
 end OFV.Driver.Stream
